@@ -73,7 +73,26 @@ def work(args):
                 faces, bk = G.body() if R.random() < 0.6 else (G.hull_body(4, 10), 'hull')
                 D = G.shuffled_body(faces)
                 rec.update(kind='B', faces=faces, D=D)
-                b = impl.build(D)
+                polys = tuple(ConvexPolygon(tuple(impl.Pt(x) for x in f)) for f in D[1])
+                b = impl.ConvexPolyhedron(polys)
+                if R.random() < 0.4:
+                    # the caller's face objects are used again: the same faces build a second copy of the body, and face 0 also bounds a
+                    # NEIGHBOURING cell on its other side (a pyramid over it), for which it has the opposite orientation -- whatever the
+                    # constructor does to orient its faces, it must do to its own copies
+                    try:
+                        impl.ConvexPolyhedron(polys)
+                        f0 = list(D[1][0])
+                        cen = E.mean(E.vertices_of(D))
+                        n0 = E.polygon_normal(f0)
+                        if E.dot(n0, E.sub(f0[0], cen)) < 0:
+                            n0 = E.neg(n0)
+                        apex = E.add(E.mean(f0), E.mul(F(1, 2) / max(abs(c_) for c_ in n0), n0))
+                        cyc0 = E.vertices_of(('G', f0))
+                        tris = [ConvexPolygon((impl.Pt(cyc0[t_]), impl.Pt(cyc0[(t_ + 1) % len(cyc0)]), impl.Pt(apex))) for t_ in range(len(cyc0))]
+                        impl.ConvexPolyhedron((polys[0],) + tuple(tris))
+                        rec['neighbour_cell'] = True
+                    except Exception as e_:
+                        rec['neighbour_cell'] = 'failed: %s' % type(e_).__name__
                 rec['bfaces'] = [(impl.vex(f.plane.n), [impl.pex(x) for x in f.points], impl.pex(f.center_point)) for f in b.convex_polygons]
                 rec['verts'] = sorted(impl.pex(x) for x in b.point_set)
                 rec['edges'] = sorted(tuple(sorted((impl.pex(s.start_point), impl.pex(s.end_point)))) for s in b.segment_set)
